@@ -97,9 +97,9 @@ public:
     const auto & x = static_cast<const _Derived &>(*this).coeffs().y();
     const auto & y = static_cast<const _Derived &>(*this).coeffs().x();
 
-    using std::atan2;
+    using std::atan2, std::abs;
     if (y >= 0.) {
-      return atan2(y, x);
+      return atan2(abs(y), x);  // abs: y may be -0.0, for which atan2(y, x < 0) is -pi
     } else {
       return Scalar(M_PI) + atan2(-y, -x);
     }
